@@ -61,6 +61,13 @@ pub fn run_alg(args: &[Sx]) -> Sx {
         ];
         if !(c1 == c2 && c1 == c3) { emit(a("ORACLE-FAIL:compare-/-Ord-/-to_genomic_range-disagree")) };
         emit(tag("cmp", c1.into_iter().map(cmp).collect()));
+        // setters on every record type: a gets b's chromosome, c's start, b's end
+        fn set3<R: BEDLike>(mut r: R, c: &str, s: u64, e: u64) -> (String, u64, u64) { r.set_chrom(c).set_start(s).set_end(e); (r.chrom().to_string(), r.start(), r.end()) }
+        let want = set3(ga.clone(), gb.chrom(), gc.start(), gb.end());
+        let all = vec![set3(bed6(&ga), gb.chrom(), gc.start(), gb.end()), set3(np(&ga), gb.chrom(), gc.start(), gb.end()),
+                       set3(BedGraph::from_bed(&ga, 1.5f64), gb.chrom(), gc.start(), gb.end()), set3(bed6(&ga).to_genomic_range(), gb.chrom(), gc.start(), gb.end())];
+        if all.iter().any(|x| *x != want) { emit(a("ORACLE-FAIL:setters-disagree-between-record-types")); }
+        emit(Sx::L(vec![a("set"), hex(want.0.as_bytes()), a(want.1), a(want.2)]));
     })
 }
 
